@@ -2,6 +2,12 @@
 import json, os
 
 CLAIMED = {
+ "C02": ("proof", "Coq theorems: subm (translated from the C++ loop body on every run) is clamped subtraction for every width and "
+         "pair of values; boolean dilation/erosion of the model are adjoint for any dimension and element, borders included, hence "
+         "open/close are (anti-)extensive, idempotent and increasing; cdilate/cerode bounds for every dtype and iteration count. "
+         "Grey-level laws, duality and top-hat identities are evaluated on the implementation's outputs; all seven public functions "
+         "are compared with the extracted model on generated inputs",
+         "Rocq proof (Galois adjunction) + translator + differential correspondence"),
  "C01": ("proof", "Coq theorems (all dims/dtypes/elements) about an executable model whose scalar kernels "
          "(fix_offset, erode_sub, dilate_add) are re-translated from the C++ on every run: erosion = lattice definition at every "
          "pixel, saturation laws for every width, scatter-dilation = max of contributions; the model is run (extracted OCaml) "
